@@ -34,7 +34,10 @@
     conversion, modular on g++);
   * `add_pitch_node` throws InputError as soon as `env_data` holds more than 256 nodes (c469126):
     `PErr.tooLong`; the check sits after the `push_back`s and after the `invalid_argument` test
-    of the same iteration, and is modelled in that order.
+    of the same iteration, and is modelled in that order;
+  * a loop position above 255 (256 nodes, then the mark) is an InputError in both end commands
+    (3ecca73): `addPitch` tests it before `pitchFinish` / `pitchFinishExt`, which therefore only
+    ever see `lp ≤ 255` — the hypothesis `lp < 256` of `C11_pitch_decode_compact/_extended`.
   Narrowings of `strtol` results: `int length` / `int vibrato_rate` = `i32`; `unsigned default_len`
   = `% 2^32`; `uint8_t` = `u8`.  `strtol` saturates at `LONG_MIN`/`LONG_MAX` (`clampLong`).
   Not modelled: `pcm` instruments (Wave_Bank, property C14) → `Err.unsupported`;
@@ -549,14 +552,19 @@ def addPitch {α} (A : Arith α) (st : State) (id : Nat) (tag : List String) : E
     | .ok (st, idx) =>
       .ok { st with pitchMap := mset st.pitchMap id idx,
                     pitchExt := if ext && !st.pitchExt.contains id then st.pitchExt ++ [id] else st.pitchExt }
+  -- `if(loop_pos > 255) throw InputError(…)` in the loop branch of the end command (both forms)
+  let loopErr : Except Err State :=
+    .error (.input (Tables.mdsdrv_msg_pitch_loop.1 ++ toString id ++ Tables.mdsdrv_msg_pitch_loop.2))
   match pitchTokens A st.useExt false tag [] (-1) with
   | .ok (env, lp) =>
-    if lp == -1 && env.isEmpty then .error (.input "pitch envelope has no nodes") else store st (pitchFinish env lp) false
+    if lp == -1 && env.isEmpty then .error (.input "pitch envelope has no nodes")
+    else if lp > (Tables.mdsdrv_pitch_loop_max : Int) then loopErr
+    else store st (pitchFinish env lp) false
   | .error .input => .error (.input "undefined envelope value")
   | .error .tooLong => .error (.input Tables.mdsdrv_msg_pitch_too_long)
   | .error .invalidArgument =>
     match pitchTokens A st.useExt true tag [] (-1) with
-    | .ok (env, lp) => store st (pitchFinishExt env lp) true
+    | .ok (env, lp) => if lp > (Tables.mdsdrv_pitch_loop_max : Int) then loopErr else store st (pitchFinishExt env lp) true
     | .error .tooLong => .error (.input Tables.mdsdrv_msg_pitch_too_long)
     | .error _ => .error (.input "undefined envelope value")
 
